@@ -187,7 +187,23 @@ def check_args(case):
             aliases = {}
             with unchanged("ordered_covering", table, aliases):
                 with sut("ordered_covering", documented):
-                    oc.ordered_covering(table, None, aliases)
+                    first, known = oc.ordered_covering(table, None, aliases)
+            # the documented second use: the minimised table is updated with
+            # further entries and minimised again with the aliases the first
+            # pass returned - which are the caller's from then on
+            others = [e for c2, t2 in sorted(tables.items()) if c2 != chip
+                      for e in t2][:6] + list(table[:2])
+            have = set((e.key, e.mask) for e in first)
+            update = list(first) + [e for e in others
+                                    if (e.key, e.mask) not in have]
+
+            def xs(e):
+                return bin(~e.mask & 0xffffffff).count("1")
+            update.sort(key=xs)
+            with unchanged("ordered_covering (second pass with the aliases "
+                           "of the first)", update, known):
+                with sut("ordered_covering", documented):
+                    oc.ordered_covering(update, None, known)
         stages.append("single-table")
     except documented as e:
         stages.append(type(e).__name__)
